@@ -1,0 +1,64 @@
+// SPDX-FileCopyrightText: 2026 The Pion community <https://pion.ly>
+// SPDX-License-Identifier: MIT
+
+//go:build verif
+
+// Contracts (comment-only) for property C12: the UDP mux hands each datagram to
+// the right connection and to no other.
+
+package ice
+
+//@ closeonly ice.UDPMuxDefault.closedChan
+
+//@ func (*UDPMuxDefault).getConn
+//@   props C12
+//@   pure
+//@   ensures by-family-and-ufrag: result0 == ite(isIPv6, m.connsIPv6[ufrag], m.connsIPv4[ufrag]) && result1 == ite(isIPv6, has(m.connsIPv6, ufrag), has(m.connsIPv4, ufrag))
+
+//@ func (*UDPMuxDefault).readFromUDPConn
+//@   props C12
+//@   ensures within-the-buffer: 0 <= n && n <= len(buf)
+
+// The receive loop: one dispatch decision per datagram.
+//@ func (*UDPMuxDefault).connWorker
+//@   props C12
+//@   ghostvar byAddr int = 0
+//@   ghostvar viaUfrag bool = false
+//@   ghostvar parts0 int = 0
+//@   site call canonicalAddrPort#1 assert looks-up-the-canonical-form-of-the-true-source: arg0 == srcAddrPort
+//@   site call Unlock#1 assert address-map-is-keyed-by-the-canonical-source: destinationConn == m.addressMap[srcAddr]
+//@   site call Unlock#1 ghost byAddr := destinationConn
+//@   site call IsMessage#1 assert ufrag-lookup-only-for-unseen-sources: destinationConn == nil && arg0.base == buf.base && arg0.off == buf.off && len(arg0) == n
+//@   site call Get#1 assert username-attribute: arg1 == stun.AttrUsername
+//@   site call Split#1 assert splits-the-username-at-the-colon: arg1 == ":"
+//@   site call Split#1 ghost parts0 := result[0]
+//@   site call getConn#1 assert ufrag-is-the-part-before-the-colon: arg1 == parts0 && arg1 == ufrag
+//@   site call getConn#1 assert family-of-the-source: arg2 == isIPv6 && arg0 == m
+//@   site call getConn#1 ghost viaUfrag := true
+//@   site call writePacket#1 assert never-to-nobody: arg0 != nil && arg0 == destinationConn
+//@   site call writePacket#1 assert address-binding-wins: byAddr != 0 ==> arg0 == cast(byAddr, *udpMuxedConn)
+//@   site call writePacket#1 assert otherwise-only-by-ufrag: byAddr == 0 ==> viaUfrag
+//@   site call writePacket#1 assert delivers-the-received-bytes-and-true-source: arg1.base == buf.base && arg1.off == buf.off && len(arg1) == n && arg2 == srcAddrPort && arg3 == srcUDPAddr
+
+//@ func (*UDPMuxDefault).registerConnForAddress
+//@   props C12
+//@   site call removeAddress#1 assert previous-owner-loses-exactly-this-binding: arg0 == existing && arg1 == addr && existing == old(m.addressMap[addr])
+//@   ensures last-writer-owns-the-address: !old(closed(m.closedChan)) && m.addressMap != nil ==> has(m.addressMap, addr) && m.addressMap[addr] == conn
+//@   ensures closed-mux-registers-nothing: old(closed(m.closedChan)) ==> unchangedExcept()
+
+//@ func (*udpMuxedConn).registerAddress
+//@   props C12
+//@   site call addAddress#1 assert registers-new-addresses-only: arg0 == c && arg1 == addr
+
+//@ func (*udpMuxedConn).WriteTo
+//@   props C12
+//@   site call registerAddress#1 assert registers-the-canonical-destination: arg0 == c
+//@   site call canonicalAddrPort#1 assert canonicalises-the-destination: arg0 == addrPort
+//@   site call writeTo#1 assert writes-the-callers-bytes-to-the-callers-address: arg1 == buf && arg2 == rAddr
+
+//@ func (*UDPMuxDefault).RemoveConnByUfrag
+//@   props C12
+//@   requires m.connsIPv4 != nil && m.connsIPv6 != nil
+//@   ensures no-longer-registered-in-either-family: !has(m.connsIPv4, ufrag) && !has(m.connsIPv6, ufrag)
+//@   site call getAddresses#1 assert bindings-of-each-removed-conn: arg0 == c
+//@   site call delete#3 assert clears-every-address-binding: arg0 == m.addressMap && arg1 == addr
